@@ -13,7 +13,9 @@
 (* answer equals it.  A history is linearizable iff some path consumes all *)
 (* its lines.  Abandon skips to the next reset so one bad history does not *)
 (* hide the rest; register h (TLCSet) records that history h was passed    *)
-(* without abandoning on some path; Report prints the others.              *)
+(* without abandoning on some path; Report prints the others, with the     *)
+(* first line no clean path could consume (register NHist + h keeps the    *)
+(* furthest line consumed): the response that cannot be explained.         *)
 (* Answers of data/save/getm/schema are whole trees: a serialised document *)
 (* that mixes two states of the map equals the tree of NO instant and is   *)
 (* rejected.  Needs -workers 1.                                            *)
@@ -32,10 +34,12 @@ MaxC == 8
 
 TInit ==
     /\ l = 1 /\ pend = [c \in 1..MaxC |-> NoPend] /\ clean = TRUE /\ hno = 0 /\ t = {} /\ flat = {}
-    /\ \A h \in 1..NHist : TLCSet(h, FALSE)
+    /\ \A h \in 1..NHist : TLCSet(h, FALSE) /\ TLCSet(NHist + h, 0)
 
 Line == Trace[l]
 Mark == IF clean /\ hno > 0 THEN TLCSet(hno, TRUE) ELSE TRUE
+\* line l is being consumed on a path that never abandoned inside this history
+Far == IF clean /\ hno > 0 /\ TLCGet(NHist + hno) < l THEN TLCSet(NHist + hno, l) ELSE TRUE
 
 TReset ==
     /\ l <= Len(Trace) /\ Line.k = "reset"
@@ -46,6 +50,7 @@ TReset ==
 TInv ==
     /\ l <= Len(Trace) /\ Line.k = "inv"
     /\ pend[Line.c].o.op = "none"
+    /\ Far
     /\ pend' = [pend EXCEPT ![Line.c] = [o |-> [op |-> Line.op, p |-> Line.p, val |-> [v |-> Line.val.v, sub |-> Range(Line.val.sub)]],
                                          lin |-> FALSE, res |-> Ok(0, {})]]
     /\ UNCHANGED <<t, flat, clean, hno>> /\ l' = l + 1
@@ -66,6 +71,7 @@ TResp ==
     /\ l <= Len(Trace) /\ Line.k = "resp"
     /\ pend[Line.c].lin
     /\ pend[Line.c].res = [st |-> Line.res.st, v |-> Line.res.v, sub |-> Range(Line.res.sub)]
+    /\ Far
     /\ pend' = [pend EXCEPT ![Line.c] = NoPend]
     /\ UNCHANGED <<t, flat, clean, hno>> /\ l' = l + 1
 
@@ -84,5 +90,5 @@ TNext == TReset \/ TInv \/ TResp \/ (\E c \in 1..MaxC : Lin(c)) \/ Abandon \/ TE
 TSpec == TInit /\ [][TNext]_tvars
 
 Report ==
-    \A h \in 1..NHist : TLCGet(h) \/ PrintT(ToJson([bad |-> {"X01.Linearizable"}, h |-> h]))
+    \A h \in 1..NHist : TLCGet(h) \/ PrintT(ToJson([bad |-> {"X01.Linearizable"}, h |-> h, far |-> TLCGet(NHist + h)]))
 =============================================================================
